@@ -339,10 +339,13 @@ pub fn for_each_program(thorough: bool, family_filter: &(dyn Fn(&str) -> bool + 
     (st, bounds)
 }
 
-pub const FAMILY_RULE: &str = "expression families: every well-typed expression with exactly n operator nodes (type-directed generation over ints, floats, bools, strings, tuples, blobs, enum values, lists; operators, calls with side effects, field/index access, if- and case-expressions) placed in every one of 24 statement contexts; statement families: every sequence of actions over themed menus (loops with break/continue/ret, closures, blobs with self, enums, globals) and the recursion templates (a value held across the recursive call at every expression position, depth 1-3); non-trivial = the reference trace prints something or ends abnormally; distinct by program text";
+pub const FAMILY_RULE: &str = "expression families: every well-typed expression with exactly n operator nodes (type-directed generation over ints, floats, bools, strings, tuples, blobs, enum values, lists; operators, calls with side effects, field/index access, if- and case-expressions) placed in every one of 24 statement contexts; statement families: every sequence of actions over themed menus (loops with break/continue/ret, closures, blobs with self, enums, globals) and the recursion templates (a value held across the recursive call at every expression position, depth 1-3); a three-file project whose modules have a `start` and a `g` of their own, under every order of the statements of each file; non-trivial = the reference trace prints something or ends abnormally; distinct by program text";
 
 pub fn run(run: &mut Run) {
-    let (st, bounds) = for_each_program(run.thorough(), &|_| true, &|acc, fam, p, sample| record(acc, "c01", fam, p, sample));
+    let (mut st, bounds) = for_each_program(run.thorough(), &|_| true, &|acc, fam, p, sample| record(acc, "c01", fam, p, sample));
+    // programs of several files: the entry point is main's `start`, modules have globals and a `start` of their own
+    // (the three-file family of C11, every order of every file's statements, expected trace known by construction)
+    crate::engines::c11::entry_family(&mut st);
     run.stats = st;
     run.rule = FAMILY_RULE.into();
     run.bounds = bounds;
